@@ -40,18 +40,22 @@ theorem mergeOne_error {c : LitCfg} {e : EqEnv} {first : Bool} {fields : Fields}
       split at h
       · rename_i he; cases h; exact eq_error he
       · split at h
-        · rename_i he; cases h; exact eq_error he
-        · split at h <;> simp [pure, Except.pure] at h
+        · simp [pure, Except.pure] at h
+        · split at h
+          · rename_i he; cases h; exact eq_error he
+          · split at h <;> simp [pure, Except.pure] at h
     · simp only [bind, Except.bind] at h
       split at h
       · rename_i he; cases h; exact eq_error he
       · split at h
-        · rename_i he
-          cases h
-          split at he
-          · exact eq_error he
-          · simp [pure, Except.pure] at he
-        · split at h <;> simp [pure, Except.pure] at h
+        · simp [pure, Except.pure] at h
+        · split at h
+          · rename_i he
+            cases h
+            split at he
+            · exact eq_error he
+            · simp [pure, Except.pure] at he
+          · split at h <;> simp [pure, Except.pure] at h
 
 theorem foldlM_error {α β} (f : β → α → Except PyErr β) (P : PyErr → Prop)
     (hf : ∀ b a err, f b a = .error err → P err) :
